@@ -24,7 +24,7 @@ def mc_cfg(name, front, N, I, V, ints, maxt, ops, vals='no', reps=0, H='H6', R='
 def trace_cfg(front, dev=None):
     p = os.path.join(tlc.BUILD, 'NdnFibTrace-%s.cfg' % front)
     tlc.write_cfg(p, spec='TSpec',
-                  constants={'Front': '"%s"' % front, 'Names': '<- TrNames', 'Handlers': '<- TrHandlers',
+                  constants={'Front': '"%s"' % ('v2' if front == 'dispatcher' else front), 'Names': '<- TrNames', 'Handlers': '<- TrHandlers',
                              'IntTemplates': '<- TrNone', 'MaxInts': 12, 'MaxT': 100000, 'MaxOps': 64,
                              'MaxReplies': 64, 'Verdicts': '<- TrVerdicts', 'Vals': '<- TrNone',
                              'Reprs': '<- TrReprs', 'Envs': '<- TrEnvs', 'Junk': '<- TrJunk'},
